@@ -576,7 +576,7 @@ def identity_passes():
 
 def apply_op(E, op, objs, variant):
     """One operation of a program through the public API."""
-    from ufl.classes import BaseForm, FormSum, ZeroBaseForm
+    from ufl.classes import BaseForm, Expr, Form, FormSum, Matrix, ZeroBaseForm
 
     ufl = E.ufl
     code, a, b, w, q, dr, z = op[:7]
@@ -609,6 +609,13 @@ def apply_op(E, op, objs, variant):
     if code == 4:
         return FormSum((x, E.weight(w))) if ctor else E.weight(w) * x
     if code == 5:
+        if variant == "ctor" and isinstance(x, BaseForm):
+            # the operator notations of the action: BaseForm.__mul__ / __matmul__ (an expression as
+            # right operand) and BaseForm.__call__ (Form.__call__ is the replacement of arguments instead)
+            if isinstance(y, Expr):
+                return x @ y if isinstance(x, Matrix) else x * y
+            if not isinstance(x, Form):
+                return x(y)
         return ufl.action(x, y)
     if code == 6:
         return ufl.adjoint(x)
@@ -982,12 +989,13 @@ def _work(raw):
         checks += c
         if f:
             fails.append({"line": line, "variant": "ops", "node": f[0], "fp": f[1], "what": f[2]})
-        elif f is None and any(o[0] in (1, 2, 3, 4, 9) or (o[0] == 8 and o[5] == 0) for o in ops):
-            # the same program through the FormSum constructor / an explicit direction argument
+        elif f is None and (any(o[0] in (1, 2, 3, 4, 9) or (o[0] == 8 and o[5] == 0) for o in ops) or (len(ops) == 1 and ops[0][0] == 5)):
+            # the same program in the second notation: FormSum constructor, explicit direction argument,
+            # A * f / A @ f / A(B) for the action, in-place += / -= on the number zero
             c, f = replay_program(_E, _ASM, line, "ctor", _STATUS, counters)
             checks += c
             if f:
-                fails.append({"line": line, "variant": "ctor", "node": f[0], "fp": f[1] + "@ctor", "what": f[2] + " [FormSum constructor / explicit direction]"})
+                fails.append({"line": line, "variant": "ctor", "node": f[0], "fp": f[1] + "@ctor", "what": f[2] + " [second notation: FormSum constructor / explicit direction / A * f, A @ f, A(B) / in-place += -=]"})
         if nontrivial(ops):
             distinct.append(json.dumps(ops, separators=(",", ":")))
     return n, checks, fails, counters, distinct
